@@ -11,6 +11,8 @@ import (
 	"path/filepath"
 	"sort"
 	"strings"
+	"sync"
+	"sync/atomic"
 	"time"
 
 	"verif/harness/evid"
@@ -245,7 +247,9 @@ func c19Config(run *evid.Run, cfg Cfg, ca, rogue *rig.CA, ci int, noCA bool) {
 		Env:         []string{"SSL_CERT_FILE=" + trustFile, "SSL_CERT_DIR=" + trustDir},
 		Peers:       map[uint64]string{1: fmt.Sprintf("127.0.0.1:%d", port)},
 		Permissions: map[string]map[string][]string{"client1": {"Wallet1": {"All"}, "D": {"All"}}, "client2": {"Wallet2": {"All"}}},
-		NDWallets:   map[string][]string{"Wallet1": accounts, "Wallet2": {"other"}}, DistWallets: []string{"D"}})
+		NDWallets:   map[string][]string{"Wallet1": accounts, "Wallet2": {"other"}}, DistWallets: []string{"D"},
+		// The CA-configured daemon is the build with the race detector: its concurrent phase serves several identities at once.
+		Race: !noCA})
 	if err != nil {
 		run.Inconclusive("cannot prepare daemon: " + err.Error())
 		return
@@ -387,6 +391,10 @@ func c19Config(run *evid.Run, cfg Cfg, ca, rogue *rig.CA, ci int, noCA bool) {
 		run.Distinct(fmt.Sprintf("source port reused by another client: %v", reused > 0))
 	}
 	c19ForgedTickets(run, d, map[bool]string{false: "ca-configured", true: "ca-entry-absent"}[noCA])
+	if !noCA {
+		c19Concurrent(run, cfg, d, ca)
+		daemonRaceReports(run, d, "callers with different certificates served at the same time")
+	}
 	// The daemon must still be alive and serve the permitted client.
 	if !d.Alive() {
 		run.Violate("daemon died during the credential matrix: "+d.LogTail(800), nil)
@@ -559,5 +567,75 @@ func c19ForgedTickets(run *evid.Run, d *rig.Daemon, label string) {
 			run.Violate(fmt.Sprintf("a caller with no certificate from the configured authority was served (accounts listed: %d, signature: %v) after resuming a TLS session with a ticket it minted itself under the key %s (%s)",
 				len(lres.GetAccounts()), len(sres.GetSignature()) > 0, name, label), map[string]any{"ticket_key": name, "config": label})
 		}
+	}
+}
+
+// c19Concurrent: callers with different certificates of the configured authority are served at the same time.  The
+// identity used for each decision must be the subject of the certificate on THAT connection: while client1 (allowed
+// on Wallet1) signs, client2 (allowed on Wallet2 only) and client9 (allowed nowhere) ask for the same things on their
+// own connections and must never obtain a signature or an account of Wallet1.
+func c19Concurrent(run *evid.Run, cfg Cfg, d *rig.Daemon, ca *rig.CA) {
+	type who struct {
+		cn      string
+		allowed bool
+	}
+	callers := []who{{"client1", true}, {"client2", false}, {"client9", false}, {"client1", true}, {"client2", false}, {"client9", false}}
+	stop := make(chan struct{})
+	var wg sync.WaitGroup
+	var served, refused, leaked atomic.Int64
+	for i, w := range callers {
+		crt, err := ca.Issue(rig.CertOpts{CN: w.cn})
+		if err != nil {
+			run.Inconclusive(err.Error())
+			return
+		}
+		conn, err := rig.Dial(d.Addr, rig.ClientTLS(ca, crt.TLS), "")
+		if err != nil {
+			run.Inconclusive(err.Error())
+			return
+		}
+		defer conn.Close()
+		wg.Add(1)
+		go func(i int, w who) {
+			defer wg.Done()
+			signer, lister := pb.NewSignerClient(conn), pb.NewListerClient(conn)
+			for k := 0; ; k++ {
+				select {
+				case <-stop:
+					return
+				default:
+				}
+				ctx, cancel := context.WithTimeout(context.Background(), 10*time.Second)
+				sres, serr := signer.Sign(ctx, &pb.SignRequest{Id: &pb.SignRequest_Account{Account: "Wallet1/acct17"}, Data: Root32(byte(k)), Domain: Dom([]byte{9, 0, 0, 0}, byte(i))})
+				var lres *pb.ListAccountsResponse
+				var lerr error
+				if k%4 == 0 {
+					lres, lerr = lister.ListAccounts(ctx, &pb.ListAccountsRequest{Paths: []string{"Wallet1"}})
+				}
+				cancel()
+				got := (serr == nil && len(sres.GetSignature()) > 0) || (lerr == nil && lres != nil && len(lres.GetAccounts()) > 0)
+				switch {
+				case w.allowed && got:
+					served.Add(1)
+				case !w.allowed && got:
+					if leaked.Add(1) == 1 {
+						run.Violate(fmt.Sprintf("while other clients were being served, %s (no permission on Wallet1) obtained a signature or accounts of Wallet1 on its own connection: the decision used another caller's identity", w.cn),
+							map[string]any{"caller": w.cn, "signature": len(sres.GetSignature()) > 0, "accounts": len(lres.GetAccounts())})
+					}
+				default:
+					refused.Add(1)
+				}
+			}
+		}(i, w)
+	}
+	time.Sleep(time.Duration(cfg.N(2500, 20000)) * time.Millisecond)
+	close(stop)
+	wg.Wait()
+	run.Eval(int(served.Load() + refused.Load() + leaked.Load()))
+	run.Count("concurrent_identity_requests_served_to_permitted", int(served.Load()))
+	run.Count("concurrent_identity_requests_refused", int(refused.Load()))
+	run.Distinct(fmt.Sprintf("concurrent callers with different certificates: permitted served=%v others refused=%v", served.Load() > 0, refused.Load() > 0))
+	if served.Load() == 0 || refused.Load() == 0 {
+		run.Inconclusive("concurrent identity phase observed nothing")
 	}
 }
